@@ -1,7 +1,7 @@
 (* C13 — per-publisher, per-topic order is preserved to every subscriber. *)
 From Coq Require Import List Arith Bool.
 Import ListNotations.
-From VMQ Require model.Writer proofs.WriterFifo.
+From VMQ Require model.Writer proofs.WriterFifo model.Handoff proofs.HandoffProofs model.HandoffShape.
 From VMQ Require Import gen.Extracted model.Route proofs.RouteProofs.
 
 (* The number of routing workers is the one found in topics/memlockfree/topics.go NOW. *)
@@ -38,6 +38,39 @@ Proof.
   apply (WriterFifo.writer_fifo es (Writer.init rm oq) w' outs (WriterFifo.init_finv rm oq) Hs Hr).
 Qed.
 Print Assumptions C13_writer_fifo.
+
+(* ACROSS CONNECTIONS: the hand-over of a durable session's messages when its connection ends and when the next one
+   is set up (model/Handoff.v: one step per critical section of the subscriber's lock; the order of the steps in the
+   Go functions is re-read by the translator on every run).  For EVERY interleaving of routing, transmissions and
+   connection life-cycle steps: first transmissions so far ++ what is pending (writer queue, persistence, senders
+   held until the backlog is loaded, publishers waiting for the hand-over - in this order) = what the routing layer
+   handed to the session, in that order.  So nothing is lost or reordered across a connection end or a reconnect,
+   within the next connection included.  The two orders the code had before are refuted in refute/C13.v. *)
+Theorem C13_handoff_order : forall (msg : Type) (es : list (@Handoff.ev msg)),
+  let s := @Handoff.run msg 0 Handoff.init es in
+  Handoff.sent s ++ Handoff.pending s = Handoff.routed es /\
+  (Handoff.ph s = Handoff.Connected -> Handoff.pending s = Handoff.txq s /\ Handoff.started s = true).
+Proof. exact HandoffProofs.handoff_order. Qed.
+Print Assumptions C13_handoff_order.
+
+(* on an established connection whatever is pending is what the writer transmits next (no message is stranded in
+   persistence while the client is connected) *)
+Theorem C13_handoff_no_stall : forall (msg : Type) (es : list (@Handoff.ev msg)),
+  let s := @Handoff.run msg 0 Handoff.init es in
+  Handoff.ph s = Handoff.Connected -> Handoff.pending s <> [] ->
+  exists m, Handoff.sent (Handoff.step 0 s Handoff.Send) = Handoff.sent s ++ [m] /\ hd_error (Handoff.pending s) = Some m.
+Proof. exact HandoffProofs.handoff_no_stall. Qed.
+Print Assumptions C13_handoff_no_stall.
+
+(* the Go functions perform the steps in the order the model's events stand for *)
+From Coq Require String.
+Import String.StringSyntax Ascii.AsciiSyntax.
+Open Scope string_scope.
+Eval vm_compute in (HandoffShape.hshape_diff handoff_shape).
+Close Scope string_scope.
+Theorem C13_handoff_shape : HandoffShape.hshape_ok handoff_shape = true.
+Proof. vm_compute. reflexivity. Qed.
+Print Assumptions C13_handoff_shape.
 
 (* non-vacuity: a full schedule for 3 messages and 2 subscribers *)
 Example C13_nonvacuous :
